@@ -324,20 +324,22 @@ func c19(c *ctx) {
 					return "", false
 				},
 				target: tgtOkReturn("ok-return"),
-				reqs:   func(string) []string { return []string{"!seen:preflight|preflight.ok", "!seen:preflight|rejectUnknown.ok"} }, minTarget: 1})
+				reqs: func(string) []string {
+					return []string{"!seen:preflight|preflight.ok", "!seen:preflight|rejectUnknown.ok"}
+				}, minTarget: 1})
 		}
 	}
 	allowedRaw := map[string]string{
-		"lib.Unmarshal":                                     "the strict decoder itself",
-		"(*lib/codec.Protobuf).Unmarshal":                   "generic binary codec used for non-critical payloads",
-		"(lib/codec.Protobuf).Unmarshal":                    "generic binary codec used for non-critical payloads",
-		"(*lib/codec.Protobuf).FromAny":                     "generic any decoding",
-		"(lib/codec.Protobuf).FromAny":                      "generic any decoding",
-		"lib/crypto.NewMultiBLSFromPublicKey":               "multi-signature public key container",
-		"lib.FromAny":                                       "any payloads (messages are re-checked by their Check methods)",
-		"lib.fromAnyDynamic":                                "plugin-registered dynamic messages",
-		"lib.registerFileDescriptor":                        "plugin file descriptors",
-		"lib.RegisterPluginFileDescriptors":                 "plugin file descriptors",
+		"lib.Unmarshal":                                      "the strict decoder itself",
+		"(*lib/codec.Protobuf).Unmarshal":                    "generic binary codec used for non-critical payloads",
+		"(lib/codec.Protobuf).Unmarshal":                     "generic binary codec used for non-critical payloads",
+		"(*lib/codec.Protobuf).FromAny":                      "generic any decoding",
+		"(lib/codec.Protobuf).FromAny":                       "generic any decoding",
+		"lib/crypto.NewMultiBLSFromPublicKey":                "multi-signature public key container",
+		"lib.FromAny":                                        "any payloads (messages are re-checked by their Check methods)",
+		"lib.fromAnyDynamic":                                 "plugin-registered dynamic messages",
+		"lib.registerFileDescriptor":                         "plugin file descriptors",
+		"lib.RegisterPluginFileDescriptors":                  "plugin file descriptors",
 		"(*lib.PluginSchemaRegistry).RegisterFileDescriptor": "plugin file descriptors",
 		"(*lib.PluginSchemaRegistry).Register":               "plugin file descriptors",
 		"lib.MarshalAnypbJSON":                               "JSON rendering of an any payload for RPC output",
